@@ -1,0 +1,90 @@
+//go:build verif
+
+// Contracts for package pkce, checked by /verif/govc (see /verif/DESIGN.md).
+// Comment-only: this file adds no code to the package.
+package pkce
+
+// ---------------------------------------------------------------- abstract store: PKCE sessions
+//@ ghost pkce_exists    : map[string]bool
+//@ ghost pkce_challenge : map[string]string   // code_challenge of the stored request's form
+//@ ghost pkce_method    : map[string]string   // code_challenge_method of the stored request's form
+//@ ghost pkce_req       : map[string]fosite.Requester
+
+//@ spec func pkce_unchanged() bool = pkce_exists == old(pkce_exists) && pkce_challenge == old(pkce_challenge) && pkce_method == old(pkce_method) && pkce_req == old(pkce_req)
+
+//@ interface PKCERequestStorage.CreatePKCERequestSession
+//@   modifies pkce_exists, pkce_challenge, pkce_method, pkce_req, stored, faults
+//@   ensures err == nil ==> pkce_exists == upd(old(pkce_exists), signature, true) && pkce_challenge == upd(old(pkce_challenge), signature, formget(requester.GetRequestForm(), "code_challenge")) && pkce_method == upd(old(pkce_method), signature, formget(requester.GetRequestForm(), "code_challenge_method")) && pkce_req == upd(old(pkce_req), signature, requester) && stored == upd(old(stored), requester, true) && faults == old(faults)
+//@   ensures err != nil ==> pkce_unchanged() && stored == old(stored) && faults == old(faults) + 1
+
+//@ interface PKCERequestStorage.GetPKCERequestSession
+//@   modifies faults
+//@   ensures err == nil ==> pkce_exists[signature] && result != nil && result == pkce_req[signature] && formget(result.GetRequestForm(), "code_challenge") == pkce_challenge[signature] && formget(result.GetRequestForm(), "code_challenge_method") == pkce_method[signature] && (stored[result] || fresh(result)) && faults == old(faults)
+//@   ensures err != nil && eis(err, fosite.ErrNotFound) ==> !pkce_exists[signature] && faults == old(faults)
+//@   ensures err != nil && !eis(err, fosite.ErrNotFound) ==> faults == old(faults) + 1
+
+//@ interface PKCERequestStorage.DeletePKCERequestSession
+//@   modifies pkce_exists, faults
+//@   ensures err == nil ==> pkce_exists == upd(old(pkce_exists), signature, false) && faults == old(faults)
+//@   ensures err != nil ==> pkce_exists == old(pkce_exists) && faults == old(faults) + 1
+
+// ---------------------------------------------------------------- C03
+
+// A verifier is well-formed if it has 43..128 characters none of which is outside the unreserved set
+// (the set is whatever the package's regular expression rejects).
+//@ spec func wellformed(v string) bool = 43 <= len(v) && len(v) <= 128 && !verifierWrongFormat.MatchString(v)
+//@ spec func s256(v string) string = base64.RawURLEncoding.EncodeToString(sha256sum(bcat(nobytes(), bytes(v)), nobytes()))
+//@ spec func transform(method string, v string) string = method == "S256" ? s256(v) : v
+
+//@ func (*Handler).CanHandleTokenEndpointRequest
+//@   pure
+//@   ensures result == requester.GetGrantTypes().ExactOne("authorization_code")
+
+//@ func (*Handler).validateNoPKCE
+//@   requires c != nil
+//@   ensures [C03.enforced-needs-challenge] err == nil <==> !c.Config.GetEnforcePKCE(ctx) && !(c.Config.GetEnforcePKCEForPublicClients(ctx) && client.IsPublic())
+//@   ensures [C03.refusal-class] err != nil ==> ekind(err) == "invalid_request"
+
+//@ func (*Handler).validate
+//@   requires c != nil
+//@   ensures [C03.enforced-needs-challenge] len(challenge) == 0 ==> (err == nil <==> !c.Config.GetEnforcePKCE(ctx) && !(c.Config.GetEnforcePKCEForPublicClients(ctx) && client.IsPublic()))
+//@   ensures [C03.plain-opt-in] len(challenge) > 0 ==> (err == nil <==> method == "S256" || ((method == "plain" || method == "") && c.Config.GetEnablePKCEPlainChallengeMethod(ctx)))
+//@   ensures [C03.refusal-class] err != nil ==> ekind(err) == "invalid_request"
+
+//@ func (*Handler).deletePKCERequestSession
+//@   requires c != nil
+//@   modifies pkce_exists, faults
+//@   ensures [C03.delete-after-verification] err == nil ==> pkce_exists == upd(old(pkce_exists), signature, false) && faults == old(faults)
+//@   ensures [C03.failed-attempt-keeps-binding] err != nil ==> pkce_exists == old(pkce_exists) && faults == old(faults) + 1 && ekind(err) == "server_error"
+
+//@ func (*Handler).HandleTokenEndpointRequest
+//@   let verifier = formget(old(request.GetRequestForm()), "code_verifier")
+//@   let code = formget(old(request.GetRequestForm()), "code")
+//@   let sig  = old(c.AuthorizeCodeStrategy.AuthorizeCodeSignature(ctx, code))
+//@   let had  = old(pkce_exists[sig])
+//@   let challenge = old(pkce_challenge[sig])
+//@   let method = old(pkce_method[sig])
+//@   let canhandle = c.CanHandleTokenEndpointRequest(ctx, request)
+//@   requires c != nil && request != nil && !stored[request]
+//@   modifies pkce_exists, faults, hash_data, is_hash
+//@   ensures [C03.verifier-required] canhandle && had && challenge != "" && err == nil ==> wellformed(verifier) && transform(method, verifier) == challenge
+//@   ensures [C03.plain-opt-in] canhandle && had && challenge != "" && err == nil && method != "S256" ==> c.Config.GetEnablePKCEPlainChallengeMethod(ctx)
+//@   ensures [C03.no-session-no-verifier] canhandle && !had && err == nil ==> verifier == "" && !c.Config.GetEnforcePKCE(ctx) && !(c.Config.GetEnforcePKCEForPublicClients(ctx) && old(request.GetClient()).IsPublic())
+//@   ensures [C03.enforced-needs-challenge] canhandle && c.Config.GetEnforcePKCE(ctx) && err == nil ==> had && challenge != ""
+//@   ensures [C03.failed-attempt-keeps-binding] err != nil ==> pkce_exists == old(pkce_exists)
+//@   ensures [C03.fault-refuses] faults != old(faults) ==> err != nil
+//@   ensures [C03.success-consumes-binding] canhandle && had && err == nil ==> !pkce_exists[sig]
+//@   ensures [C03.refusal-class] canhandle && err != nil && faults == old(faults) ==> ekind(err) == "invalid_grant" || ekind(err) == "invalid_request"
+
+//@ func (*Handler).HandleAuthorizeEndpointRequest
+//@   let challenge = formget(old(ar.GetRequestForm()), "code_challenge")
+//@   let method = formget(old(ar.GetRequestForm()), "code_challenge_method")
+//@   let sig = c.AuthorizeCodeStrategy.AuthorizeCodeSignature(ctx, resp.GetCode())
+//@   let responsible = old(ar.GetResponseTypes()).Has("code")
+//@   requires c != nil && ar != nil && resp != nil
+//@   modifies pkce_exists, pkce_challenge, pkce_method, pkce_req, stored, faults
+//@   ensures [C03.authorize-stores-binding] err == nil && responsible && (challenge != "" || method != "") ==> pkce_exists[sig] && pkce_challenge[sig] == challenge && pkce_method[sig] == method
+//@   ensures [C03.plain-opt-in] err == nil && responsible && challenge != "" && method != "S256" ==> c.Config.GetEnablePKCEPlainChallengeMethod(ctx)
+//@   ensures [C03.enforced-needs-challenge] err == nil && responsible && (c.Config.GetEnforcePKCE(ctx) || (c.Config.GetEnforcePKCEForPublicClients(ctx) && old(ar.GetClient()).IsPublic())) ==> challenge != ""
+//@   ensures [C03.authorize-touches-only-its-code] forall s string :: s != sig ==> pkce_exists[s] == old(pkce_exists[s]) && pkce_challenge[s] == old(pkce_challenge[s]) && pkce_method[s] == old(pkce_method[s])
+//@   ensures [C03.fault-refuses] faults != old(faults) ==> err != nil
